@@ -363,12 +363,13 @@ Proof.
     as (r' & F & K & C & L & _ & Hr' & _).
   exists r'. unfold glue_read, offer_read. rewrite EU. cbn [rbind snd]. rewrite F. cbn [rbind].
   split; [reflexivity|]. split; [exact K|]. split; [exact C|].
-  assert (Ho : o <= length (rcells r)) by (unfold rcap in Hoc; lia).
+  pose proof (rcap_le_cells r) as Hcells.
+  assert (Ho : o <= length (rcells r)) by lia.
   split; [rewrite C; apply write_at_read_back; exact Ho|].
   split; [|split; [exact L|exact Hr']].
   rewrite C. unfold untouched_outside. split; [apply write_at_firstn; exact Ho|].
   split; [apply write_at_skipn; exact Ho|].
-  apply write_at_length. unfold rcap in Hoc. lia.
+  apply write_at_length. lia.
 Qed.
 
 (* a plain Vec (the shape File::read_at is normally given): the whole capacity
@@ -406,7 +407,7 @@ Proof.
   destruct (view_contract r v Hr Hw Hn) as (o & l & c & EI & EU & Hlc & Hoc & Hol & Hlen).
   exists o, l. unfold write_payload, offer_write. rewrite EI. cbn [rbind fst snd].
   split; [reflexivity|]. split; [exact Hol|]. split; [reflexivity|].
-  rewrite sub_list_length. unfold rcap in *. lia.
+  rewrite sub_list_length. pose proof (rcap_le_cells r). lia.
 Qed.
 
 Lemma write_payload_vec r : write_payload VBase r = Ok (firstn (rlen r) (rcells r)).
@@ -469,7 +470,7 @@ Lemma voffer_write_lengths ms :
 Proof.
   intros H. unfold voffer_write. rewrite map_map. apply map_ext_in.
   intros m Hin. rewrite Forall_forall in H. destruct (H m Hin) as [Hl _].
-  rewrite firstn_length. unfold rcap in Hl. lia.
+  rewrite firstn_length. pose proof (rcap_le_cells m). lia.
 Qed.
 
 (* ---------------------------------------------------------------------- *)
